@@ -380,6 +380,13 @@ impl Lexer {
 pub(crate) fn tokenize_file(ctx: &mut StaticsContext, file_id: FileId) -> Vec<Token> {
     let file_data = ctx.file_db.get(file_id).unwrap();
     let mut lexer = Lexer::new(&file_data.source);
+    #[cfg(all(kani, abra_verif))]
+    {
+        // verification hook: a harness may supply the character vector directly
+        if let Some(chars) = verif::take_chars() {
+            lexer.chars = chars;
+        }
+    }
 
     // look for a shebang at the beginning of file
     if !lexer.done()
